@@ -37,17 +37,28 @@ func isModStruct(p *Program, t types.Type) *types.Named {
 func discoverClones(p *Program, pkgs ...string) []cloneFn {
 	var out []cloneFn
 	for _, fn := range p.ModFuncs() {
-		if fn.Parent() != nil || fn.Pkg == nil || fn.Synthetic != "" {
+		if fn.Parent() != nil {
+			continue
+		}
+		// instantiations of generic helpers (cloneValue[T]) have no package of their own
+		pkgOfFn := fn.Pkg
+		if pkgOfFn == nil && fn.Origin() != nil {
+			pkgOfFn = fn.Origin().Pkg
+		}
+		if pkgOfFn == nil || (fn.Synthetic != "" && fn.Origin() == nil) {
 			continue
 		}
 		okPkg := false
 		for _, pp := range pkgs {
-			if fn.Pkg.Pkg.Path() == pp {
+			if pkgOfFn.Pkg.Path() == pp {
 				okPkg = true
 			}
 		}
 		if !okPkg || fn.Signature.Results().Len() != 1 {
 			continue
+		}
+		if fn.TypeParams() != nil && fn.TypeParams().Len() > 0 && len(fn.TypeArgs()) == 0 {
+			continue // the generic template itself; its instantiations are analysed
 		}
 		rt := isModStruct(p, fn.Signature.Results().At(0).Type())
 		if rt == nil {
